@@ -8,6 +8,7 @@ mod ir;
 mod maccmd;
 mod maccmd_sets;
 mod maccmd_creators;
+mod maccmd_creators2;
 mod phyio;
 mod statics;
 mod tables;
